@@ -74,6 +74,15 @@ def constructor_defaults(it, obj):
                     if isinstance(n, ast.Assign) and len(n.targets) == 1 and isinstance(n.targets[0], ast.Attribute) and isinstance(n.targets[0].value, ast.Name) \
                             and n.targets[0].value.id == 'self' and isinstance(n.value, ast.Constant) and n.targets[0].attr not in obj.attrs:
                         obj.attrs[n.targets[0].attr] = n.value.value
+                    elif isinstance(n, ast.Assign) and len(n.targets) == 1 and isinstance(n.targets[0], ast.Attribute) and isinstance(n.targets[0].value, ast.Name) \
+                            and n.targets[0].value.id == 'self' and n.targets[0].attr not in obj.attrs:
+                        v_ = n.value          # an empty container (a cache the class starts with)
+                        if (isinstance(v_, ast.Dict) and not v_.keys) or (isinstance(v_, ast.Call) and isinstance(v_.func, ast.Name) and v_.func.id == 'dict' and not v_.args and not v_.keywords):
+                            obj.attrs[n.targets[0].attr] = {}
+                        elif (isinstance(v_, ast.List) and not v_.elts) or (isinstance(v_, ast.Call) and isinstance(v_.func, ast.Name) and v_.func.id == 'list' and not v_.args):
+                            obj.attrs[n.targets[0].attr] = []
+                        elif isinstance(v_, ast.Call) and isinstance(v_.func, ast.Name) and v_.func.id == 'set' and not v_.args:
+                            obj.attrs[n.targets[0].attr] = set()
         todo += it.bases_of(c)
 
 
